@@ -328,3 +328,12 @@ def none_is_zero(rep: Report, prog: Program) -> None:
             bad = [m for m in uses if m in r]
             rep.ob(rule, g.fq(), f"{tgt} = sum_product_edges(...) tested against None before add_single", g.loc(st), not bad, '' if not bad else 'the zero result (None) can reach add_single')
     rep.floor('C01-D4 None tests', n_sites, 5)
+    # a nonterminal without (productive) rules: forward hands back None, the wrapper turns it into the semiring zero of the right shape
+    ap = prog.func(SP, 'SumProduct.apply_to_patterned_tensors')
+    ok = False
+    for x in own_nodes(ap.node):
+        if isinstance(x, ast.IfExp) and 'is None' in norm(x.test) or isinstance(x, ast.IfExp) and 'None is' in norm(x.test):
+            b = norm(x.body)
+            if '.zeros(' in b and '.shape(' in b and "['semiring']" in b.replace('"', "'"):
+                ok = True
+    rep.ob(rule, ap.fq(), 'missing value (None) becomes semiring.zeros(fgg.shape(nt))', ap.loc(), ok, '' if ok else 'a nonterminal without value is not mapped to the semiring zero of its shape')
